@@ -46,8 +46,9 @@ type Config struct {
 	Wait     time.Duration  // waitForCompletionTimeout (default 10s)
 	OnRun    func(*run.Run) // called before Do
 	WrapRate func(api.RateFunction) api.RateFunction
-	Debug    bool // run with a logger on which debug records are enabled (they go nowhere)
-	LogKind  int  // 0: f1's discard logger (info and above enabled); 1: every level enabled; 2: no level enabled
+	Debug    bool                 // run with a logger on which debug records are enabled (they go nowhere)
+	Settings envsettings.Settings // environment settings of the run (push gateway, ...)
+	LogKind  int                  // 0: f1's discard logger (info and above enabled); 1: every level enabled; 2: no level enabled
 }
 
 // Logger returns a logger that writes nowhere: kind 0 is f1's own discard logger (info and above
@@ -165,7 +166,7 @@ func DoWithTrigger(cfg Config, trig *api.Trigger) Outcome {
 	if wait == 0 {
 		wait = 10 * time.Second
 	}
-	r, err := run.NewRun(opts, scs, trig, wait, envsettings.Settings{}, m, out)
+	r, err := run.NewRun(opts, scs, trig, wait, cfg.Settings, m, out)
 	if err != nil {
 		return Outcome{Err: fmt.Errorf("new run: %w", err), Metrics: m, Trigger: trig}
 	}
